@@ -1,5 +1,7 @@
 import ColaVerif.Lemmas.SvdModel
 import ColaVerif.Lemmas.SvdTotal
+import ColaVerif.Lemmas.SvdSorted
+import ColaVerif.Lemmas.SvdWitness
 
 /-!
 # C16 — `svd` returns a valid (truncated) singular value decomposition, `pinv(A) @ b` the
@@ -80,6 +82,22 @@ CONTRACTS — assumed behaviour of numerical libraries, hypotheses of the theore
 * `C16_lobpcg_clauses`, `C16_lobpcg_k_clause_needed` — the recorded finding `lobpcg-k-ge-n` of the `LOBPCG`
   path (`Svd.lobpcgClauses`, known_findings.json); `C16_lobpcg_largest_flag`, `C16_lobpcg_sm_regression` —
   the repaired `'SM'` selection (/repo 7c689b5).
+
+ROUND 3 (everything above is unchanged; added)
+* `C16_lanczos_W_good`, `C16_svd_krylov_tall_QY` / `_wide_QY` / `_link_QY` / `_total_QY` — `W_good` is PROVED for the
+  shapes the real eigensolvers return (`Svd.EigShape`: `Product(Orthonormal(Dense Q), Dense Y)` of `lanczos_eigs`,
+  `Dense(V)` of `lobpcg`); the Krylov theorems restated with that shape hypothesis only.
+* `C16_contracts_of_sorted`, `C16_svd_krylov_select_sorted`, `C16_svd_krylov_tall_sorted` / `_wide_sorted` — the
+  ORDER is part of the strengthened contracts `Svd.EigsSorted` (ascending eigenvalues of `eigh` / `lanczos_eigs`)
+  and `Svd.LapackSorted` (descending singular values of `np.linalg.svd`); the old contracts follow from them; under
+  `EigsSorted` the rule returns exactly the `k` largest (`'LM'`) / smallest (`'SM'`) singular values among those the
+  eigensolver holds — `ascending` is no longer a free-floating hypothesis.
+* WITNESSES (exact rational data over ℝ, non-diagonal operands; `Lemmas/SvdWitness.lean`): `C16_svd_dense_witness`
+  (`lapack_contract`, `lt_contract`; `3 × 2`), `C16_krylov_ritz_witness` (`ritz_contract`; genuine partial run
+  `k = 1 < n = 2`), `C16_pinv_lstsq_witness` (`lstsq_contract`; a concrete `lstsq` function),
+  `C16_svd_krylov_sorted_witness` (`EigsSorted`, `EigShape`; `k = 1 < n = 2`, `W = Product(Q, Y)`).
+  Still WITHOUT a Lean witness: the CG antecedents of `C16_pinv_cg_value` / `_full_rank` (`hsolve`, `hkrylov`), the
+  wide-branch contracts, complex carriers.
 -/
 
 open Matrix Svd
@@ -667,8 +685,8 @@ theorem C16_pinv_lstsq [DecidableEq 𝕜] (P : Params 𝕜)
   unfold pinv
   rw [h2]
 
-/-- the hypotheses of `C16_pinv_lstsq` are satisfiable non-trivially: a `2 × 2` non-diagonal operand
-and `lstsq` = multiplication by the inverse -/
+/-- `A_good` holds and a Moore–Penrose inverse exists for a `2 × 2` non-diagonal operand (this example contains no
+`lstsq` function; the instance of `lstsq_contract` with a concrete `lstsq` is `C16_pinv_lstsq_witness` below) -/
 example : ∃ (A : Op ℝ) (X : Matrix (Fin 2) (Fin 2) ℝ), A.rows = 2 ∧ A.cols = 2 ∧
     (A.wf = true ∧ A.dupSlice = false ∧ A.HermOK) ∧
     IsMoorePenrose (MatF.toMatrix 2 2 A.den.f) X ∧
@@ -736,6 +754,336 @@ theorem C16_lobpcg_k_clause_needed (n k : Nat) (hn : 1 ≤ n) (hk : n ≤ k) :
   · rw [List.length_range', Nat.min_eq_right (by omega)]
   · rw [List.length_range', Nat.min_eq_right (by omega)]; omega
 
+
+/-! # Round 3 -/
+
+/-! ## the eigenvector operator of the real eigensolvers is well-formed: `W_good` from shapes -/
+
+/-- **`W_good` for the real shapes.**  `lanczos_eigs` returns `V = Q @ lazify(eigvectors[:, idx])`, i.e.
+`Product(Orthonormal(Dense Q), Dense Y)` (`Orthonormal` = `Unitary` if square else `Stiefel`); `lobpcg` returns
+`Dense(V)`.  For these shapes — no hypothesis beyond the shape itself: the inner dimension `j` is shared by
+construction — C01's `Op.Good` holds: well-formed, no `Sliced` node, and no node reports `SelfAdjoint`. -/
+theorem C16_lanczos_W_good [DecidableEq 𝕜] :
+    (∀ (dq dy : DType) (r j c : Nat) (q y : MatF 𝕜),
+      Op.Good (Op.prod [orthonormal (Op.dense dq r j q), Op.dense dy j c y])) ∧
+    (∀ (dt : DType) (r c : Nat) (a : MatF 𝕜), Op.Good (Op.dense dt r c a)) ∧
+    (∀ W : Op 𝕜, EigShape W → Op.Good W) :=
+  ⟨good_lanczosW, good_dense', fun _ h => h.good⟩
+
+/-- `C16_svd_krylov_tall` WITHOUT `W_good`: `W_shape` (the eigensolver's eigenvector operator has the shape
+`lanczos_eigs` / `lobpcg` return — `Svd.EigShape`) replaces it -/
+theorem C16_svd_krylov_tall_QY [DecidableEq 𝕜] (P : Params 𝕜) (eigs : Op 𝕜 → Eigs 𝕜) (forceTall : Bool)
+    (A : Op 𝕜) (k : Nat) (w : Which) (o : KrylovOut 𝕜)
+    (h : svdKrylov P eigs forceTall A (k : Int) w = .ok o) (htall : o.tall = true)
+    (A_good : Op.Good A) (A_real : A.RealTyped) (W_shape : EigShape (eigs o.G).W) (lam : Nat → ℝ)
+    (eigs_contract :
+      let Vs := MatF.toMatrix A.cols o.pos.length (selCols (eigs o.G).W.den.f o.pos)
+      Vsᴴ * Vs = 1 ∧
+      MatF.toMatrix A.cols A.cols o.G.den.f * Vs =
+        Vs * diagonal (fun i : Fin o.pos.length => ((lam i.val : ℝ) : 𝕜)) ∧
+      ∀ t, t < o.pos.length → (eigs o.G).vals (o.pos.getD t 0) = ((lam t : ℝ) : 𝕜) ∧ 0 < lam t)
+    (sqrt_contract : ∀ t, t < o.pos.length → P.sqrt ((lam t : ℝ) : 𝕜) = ((Real.sqrt (lam t) : ℝ) : 𝕜))
+    (inv_contract : ∀ z : 𝕜, P.inv z = z⁻¹) :
+    let Am := MatF.toMatrix A.rows A.cols A.den.f
+    let U := MatF.toMatrix A.rows o.pos.length o.triple.U.den.f
+    let Sg := MatF.toMatrix o.pos.length o.pos.length o.triple.S.den.f
+    let V := MatF.toMatrix A.cols o.pos.length o.triple.V.den.f
+    MatF.toMatrix A.cols A.cols o.G.den.f = Amᴴ * Am ∧
+    Uᴴ * U = 1 ∧ Vᴴ * V = 1 ∧
+    Sg = diagonal (fun i : Fin o.pos.length => ((Real.sqrt (lam i.val) : ℝ) : 𝕜)) ∧
+    (∀ t, t < o.pos.length → 0 < Real.sqrt (lam t)) ∧
+    U * Sg * Vᴴ = Am * (V * Vᴴ) ∧
+    (Am - U * Sg * Vᴴ) * V = 0 ∧ Uᴴ * (Am - U * Sg * Vᴴ) = 0 ∧
+    (V * Vᴴ = 1 → U * Sg * Vᴴ = Am) :=
+  C16_svd_krylov_tall P eigs forceTall A k w o h htall A_good A_real W_shape.good lam eigs_contract
+    sqrt_contract inv_contract
+
+/-- `C16_svd_krylov_wide` WITHOUT `W_good` -/
+theorem C16_svd_krylov_wide_QY [DecidableEq 𝕜] (P : Params 𝕜) (eigs : Op 𝕜 → Eigs 𝕜) (forceTall : Bool)
+    (A : Op 𝕜) (k : Nat) (w : Which) (o : KrylovOut 𝕜)
+    (h : svdKrylov P eigs forceTall A (k : Int) w = .ok o) (hwide : o.tall = false)
+    (A_good : Op.Good A) (A_real : A.RealTyped) (W_shape : EigShape (eigs o.G).W) (lam : Nat → ℝ)
+    (eigs_contract :
+      let Us := MatF.toMatrix A.rows o.pos.length (selCols (eigs o.G).W.den.f o.pos)
+      Usᴴ * Us = 1 ∧
+      MatF.toMatrix A.rows A.rows o.G.den.f * Us =
+        Us * diagonal (fun i : Fin o.pos.length => ((lam i.val : ℝ) : 𝕜)) ∧
+      ∀ t, t < o.pos.length → (eigs o.G).vals (o.pos.getD t 0) = ((lam t : ℝ) : 𝕜) ∧ 0 < lam t)
+    (sqrt_contract : ∀ t, t < o.pos.length → P.sqrt ((lam t : ℝ) : 𝕜) = ((Real.sqrt (lam t) : ℝ) : 𝕜))
+    (inv_contract : ∀ z : 𝕜, P.inv z = z⁻¹) :
+    let Am := MatF.toMatrix A.rows A.cols A.den.f
+    let U := MatF.toMatrix A.rows o.pos.length o.triple.U.den.f
+    let Sg := MatF.toMatrix o.pos.length o.pos.length o.triple.S.den.f
+    let V := MatF.toMatrix A.cols o.pos.length o.triple.V.den.f
+    MatF.toMatrix A.rows A.rows o.G.den.f = Am * Amᴴ ∧
+    Uᴴ * U = 1 ∧ Vᴴ * V = 1 ∧
+    Sg = diagonal (fun i : Fin o.pos.length => ((Real.sqrt (lam i.val) : ℝ) : 𝕜)) ∧
+    (∀ t, t < o.pos.length → 0 < Real.sqrt (lam t)) ∧
+    U * Sg * Vᴴ = (U * Uᴴ) * Am ∧
+    Uᴴ * (Am - U * Sg * Vᴴ) = 0 ∧ (Am - U * Sg * Vᴴ) * V = 0 ∧
+    (U * Uᴴ = 1 → U * Sg * Vᴴ = Am) :=
+  C16_svd_krylov_wide P eigs forceTall A k w o h hwide A_good A_real W_shape.good lam eigs_contract
+    sqrt_contract inv_contract
+
+/-- `C16_svd_krylov_link` WITHOUT `W_good` -/
+theorem C16_svd_krylov_link_QY [DecidableEq 𝕜] (P : Params 𝕜) (eigs : Op 𝕜 → Eigs 𝕜) (forceTall : Bool)
+    (A : Op 𝕜) (k : Nat) (w : Which) (o : KrylovOut 𝕜)
+    (h : svdKrylov P eigs forceTall A (k : Int) w = .ok o)
+    (A_good : Op.Good A) (W_shape : EigShape (eigs o.G).W) :
+    (o.tall = true →
+      EqOn A.cols o.pos.length o.triple.V.den.f (selCols (eigs o.G).W.den.f o.pos) ∧
+      EqOn A.rows o.pos.length o.triple.U.den.f
+        (backsubU A.cols o.pos.length A.den.f o.triple.V.den.f
+          (fun t => P.inv (P.sqrt ((eigs o.G).vals (o.pos.getD t 0)))))) ∧
+    (o.tall = false →
+      EqOn A.rows o.pos.length o.triple.U.den.f (selCols (eigs o.G).W.den.f o.pos) ∧
+      EqOn A.cols o.pos.length o.triple.V.den.f
+        (backsubV A.rows o.pos.length A.den.f o.triple.U.den.f
+          (fun t => P.inv (P.sqrt ((eigs o.G).vals (o.pos.getD t 0)))))) :=
+  C16_svd_krylov_link P eigs forceTall A k w o h A_good W_shape.good
+
+/-- `C16_svd_krylov_total` with the shape instead of `Good`: the rule returns whenever the eigensolver returns an
+operator of the real shape with as many rows as the Gram operator -/
+theorem C16_svd_krylov_total_QY [DecidableEq 𝕜] (P : Params 𝕜) (eigs : Op 𝕜 → Eigs 𝕜) (forceTall : Bool)
+    (A : Op 𝕜) (k : Nat) (w : Which) (hw : w = .LM ∨ w = .SM)
+    (A_good : Op.Good A) (A_real : A.RealTyped)
+    (W_shape : ∀ G, EigShape (eigs G).W ∧ (eigs G).W.rows = G.rows) :
+    ∃ o, svdKrylov P eigs forceTall A (k : Int) w = .ok o :=
+  C16_svd_krylov_total P eigs forceTall A k w hw A_good A_real
+    (fun G => ⟨(W_shape G).1.good, (W_shape G).2⟩)
+
+/-! ## the ORDER in the contracts: the `k` largest / smallest -/
+
+/-- **the old contracts follow from the strengthened ones.**  `Svd.EigsSorted n j G W vals μ` (CONTRACT of
+`lanczos_eigs` / `lobpcg` / `eigh`, full strength): ALL `j` returned columns are orthonormal eigenvectors of the
+Gram matrix, the values are the reals `μ`, positive and ASCENDING.  For every duplicate-free selection `pos` of
+returned positions it yields the `eigs_contract` of `C16_svd_krylov_tall` / `_wide` with `lam t = μ (pos[t])`.
+`Svd.LapackSorted` (CONTRACT of `np.linalg.svd`: thin SVD, DESCENDING values) yields the `lapack_contract` of
+`C16_svd_dense`. -/
+theorem C16_contracts_of_sorted [DecidableEq 𝕜] :
+    (∀ (n j : Nat) (G W : MatF 𝕜) (vals : Nat → 𝕜) (mu : Nat → ℝ), EigsSorted n j G W vals mu →
+      ∀ pos : List Nat, (∀ t ∈ pos, t < j) → pos.Nodup →
+        let Vs := MatF.toMatrix n pos.length (selCols W pos)
+        Vsᴴ * Vs = 1 ∧
+        MatF.toMatrix n n G * Vs =
+          Vs * diagonal (fun i : Fin pos.length => ((mu (pos.getD i.val 0) : ℝ) : 𝕜)) ∧
+        ∀ t, t < pos.length →
+          vals (pos.getD t 0) = ((mu (pos.getD t 0) : ℝ) : 𝕜) ∧ 0 < mu (pos.getD t 0)) ∧
+    (∀ (P : Params 𝕜) (A : Op 𝕜) (s : Nat → ℝ),
+      LapackSorted A.rows A.cols A.td.f (P.lapackSvd A.rows A.cols A.td.f) s →
+      let o := P.lapackSvd A.rows A.cols A.td.f
+      let r := min A.rows A.cols
+      let U1 := MatF.toMatrix A.rows r o.U
+      let V1 := MatF.toMatrix A.cols r o.V
+      (∀ i, i < r → o.s i = ((s i : ℝ) : 𝕜) ∧ 0 ≤ s i) ∧ U1ᴴ * U1 = 1 ∧ V1ᴴ * V1 = 1 ∧
+        U1 * diagonal (fun i : Fin r => o.s i.val) * V1ᴴ = MatF.toMatrix A.rows A.cols A.td.f) :=
+  ⟨fun _ _ _ _ _ _ hc pos hlt hnd => hc.select pos hlt hnd, fun _ _ _ h => h.old⟩
+
+/-- **the selection returns the `k` largest / smallest.**  For the output `o` of the model's Krylov rule and
+`1 ≤ k ≤ o.j` (`o.j` = number of eigenpairs the eigensolver returned), under `eigs_sorted_contract`
+(`Svd.EigsSorted`, which CONTAINS the ascending order — no free-floating `ascending` hypothesis): `'LM'` selects
+positions `o.j - k … o.j - 1`, `'SM'` positions `0 … k - 1`; exactly `k` of them; the selected columns satisfy the
+`eigs_contract` of `C16_svd_krylov_tall` / `_wide`; and every selected eigenvalue `μ p` — hence singular value
+`sqrt (μ p)` — dominates (`'LM'`) resp. is dominated by (`'SM'`) every unselected one the eigensolver holds
+(`C16_select_largest` / `_smallest` composed with the contract). -/
+theorem C16_svd_krylov_select_sorted [DecidableEq 𝕜] (P : Params 𝕜) (eigs : Op 𝕜 → Eigs 𝕜)
+    (forceTall : Bool) (A : Op 𝕜) (k : Nat) (w : Which) (o : KrylovOut 𝕜)
+    (h : svdKrylov P eigs forceTall A (k : Int) w = .ok o) (n : Nat) (mu : Nat → ℝ)
+    (eigs_sorted_contract : EigsSorted n o.j o.G.den.f (eigs o.G).W.den.f (eigs o.G).vals mu)
+    (hk1 : 1 ≤ k) (hkj : k ≤ o.j) :
+    (w = .LM ∧ o.pos = List.range' (o.j - k) k ∨ w = .SM ∧ o.pos = List.range k) ∧
+    o.pos.length = k ∧
+    (let Vs := MatF.toMatrix n o.pos.length (selCols (eigs o.G).W.den.f o.pos)
+     Vsᴴ * Vs = 1 ∧
+     MatF.toMatrix n n o.G.den.f * Vs =
+       Vs * diagonal (fun i : Fin o.pos.length => ((mu (o.pos.getD i.val 0) : ℝ) : 𝕜)) ∧
+     ∀ t, t < o.pos.length → (eigs o.G).vals (o.pos.getD t 0) = ((mu (o.pos.getD t 0) : ℝ) : 𝕜) ∧
+       0 < mu (o.pos.getD t 0)) ∧
+    (w = .LM → ∀ p ∈ o.pos, ∀ q, q < o.j → q ∉ o.pos →
+      mu q ≤ mu p ∧ Real.sqrt (mu q) ≤ Real.sqrt (mu p)) ∧
+    (w = .SM → ∀ p ∈ o.pos, ∀ q, q < o.j → q ∉ o.pos →
+      mu p ≤ mu q ∧ Real.sqrt (mu p) ≤ Real.sqrt (mu q)) :=
+  svdKrylov_select_sorted P eigs forceTall A k w o h n mu eigs_sorted_contract hk1 hkj
+
+/-- **branch `A.H @ A`, strengthened contract, real shape**: hypotheses are `A_good`, `A_real`, the SHAPE of the
+eigenvector operator (no `W_good`), `eigs_sorted_contract` (contains the order), `sqrt_contract`, `inv_contract`.
+Conclusion: everything `C16_svd_krylov_tall` concludes for `lam t = μ (o.pos[t])`, `k` triplets, and these are
+the `k` largest (`'LM'`) / smallest (`'SM'`) singular values `sqrt μ` among the `o.j` the eigensolver holds. -/
+theorem C16_svd_krylov_tall_sorted [DecidableEq 𝕜] (P : Params 𝕜) (eigs : Op 𝕜 → Eigs 𝕜)
+    (forceTall : Bool) (A : Op 𝕜) (k : Nat) (w : Which) (o : KrylovOut 𝕜)
+    (h : svdKrylov P eigs forceTall A (k : Int) w = .ok o) (htall : o.tall = true)
+    (A_good : Op.Good A) (A_real : A.RealTyped) (W_shape : EigShape (eigs o.G).W) (mu : Nat → ℝ)
+    (eigs_sorted_contract :
+      EigsSorted A.cols o.j o.G.den.f (eigs o.G).W.den.f (eigs o.G).vals mu)
+    (hk1 : 1 ≤ k) (hkj : k ≤ o.j)
+    (sqrt_contract : ∀ t, t < o.j → P.sqrt ((mu t : ℝ) : 𝕜) = ((Real.sqrt (mu t) : ℝ) : 𝕜))
+    (inv_contract : ∀ z : 𝕜, P.inv z = z⁻¹) :
+    let Am := MatF.toMatrix A.rows A.cols A.den.f
+    let U := MatF.toMatrix A.rows o.pos.length o.triple.U.den.f
+    let Sg := MatF.toMatrix o.pos.length o.pos.length o.triple.S.den.f
+    let V := MatF.toMatrix A.cols o.pos.length o.triple.V.den.f
+    o.pos.length = k ∧
+    (w = .LM ∧ o.pos = List.range' (o.j - k) k ∨ w = .SM ∧ o.pos = List.range k) ∧
+    Uᴴ * U = 1 ∧ Vᴴ * V = 1 ∧
+    Sg = diagonal (fun i : Fin o.pos.length => ((Real.sqrt (mu (o.pos.getD i.val 0)) : ℝ) : 𝕜)) ∧
+    (∀ t, t < o.pos.length → 0 < Real.sqrt (mu (o.pos.getD t 0))) ∧
+    U * Sg * Vᴴ = Am * (V * Vᴴ) ∧
+    (Am - U * Sg * Vᴴ) * V = 0 ∧ Uᴴ * (Am - U * Sg * Vᴴ) = 0 ∧
+    (w = .LM → ∀ p ∈ o.pos, ∀ q, q < o.j → q ∉ o.pos → Real.sqrt (mu q) ≤ Real.sqrt (mu p)) ∧
+    (w = .SM → ∀ p ∈ o.pos, ∀ q, q < o.j → q ∉ o.pos → Real.sqrt (mu p) ≤ Real.sqrt (mu q)) := by
+  intro Am U Sg V
+  obtain ⟨hform, hlen, hsel, hL, hS⟩ :=
+    svdKrylov_select_sorted P eigs forceTall A k w o h A.cols mu eigs_sorted_contract hk1 hkj
+  have hmem : ∀ p ∈ o.pos, p < o.j := by
+    intro p hm
+    rcases hform with ⟨_, hp⟩ | ⟨_, hp⟩
+    · rw [hp, List.mem_range'_1] at hm; omega
+    · rw [hp, List.mem_range] at hm; omega
+  have hlt : ∀ t, t < o.pos.length → o.pos.getD t 0 < o.j :=
+    fun t ht => hmem _ (MatF.getD_mem_of_lt' o.pos t ht)
+  obtain ⟨_, k2, k3, k4, k5, k6, k7, k8, _⟩ :=
+    C16_svd_krylov_tall P eigs forceTall A k w o h htall A_good A_real W_shape.good
+      (fun t => mu (o.pos.getD t 0)) hsel (fun t ht => sqrt_contract _ (hlt t ht)) inv_contract
+  exact ⟨hlen, hform, k2, k3, k4, k5, k6, k7, k8,
+    fun hw p hp q hq hnq => (hL hw p hp q hq hnq).2, fun hw p hp q hq hnq => (hS hw p hp q hq hnq).2⟩
+
+/-- **branch `A @ A.H`, strengthened contract, real shape** -/
+theorem C16_svd_krylov_wide_sorted [DecidableEq 𝕜] (P : Params 𝕜) (eigs : Op 𝕜 → Eigs 𝕜)
+    (forceTall : Bool) (A : Op 𝕜) (k : Nat) (w : Which) (o : KrylovOut 𝕜)
+    (h : svdKrylov P eigs forceTall A (k : Int) w = .ok o) (hwide : o.tall = false)
+    (A_good : Op.Good A) (A_real : A.RealTyped) (W_shape : EigShape (eigs o.G).W) (mu : Nat → ℝ)
+    (eigs_sorted_contract :
+      EigsSorted A.rows o.j o.G.den.f (eigs o.G).W.den.f (eigs o.G).vals mu)
+    (hk1 : 1 ≤ k) (hkj : k ≤ o.j)
+    (sqrt_contract : ∀ t, t < o.j → P.sqrt ((mu t : ℝ) : 𝕜) = ((Real.sqrt (mu t) : ℝ) : 𝕜))
+    (inv_contract : ∀ z : 𝕜, P.inv z = z⁻¹) :
+    let Am := MatF.toMatrix A.rows A.cols A.den.f
+    let U := MatF.toMatrix A.rows o.pos.length o.triple.U.den.f
+    let Sg := MatF.toMatrix o.pos.length o.pos.length o.triple.S.den.f
+    let V := MatF.toMatrix A.cols o.pos.length o.triple.V.den.f
+    o.pos.length = k ∧
+    (w = .LM ∧ o.pos = List.range' (o.j - k) k ∨ w = .SM ∧ o.pos = List.range k) ∧
+    Uᴴ * U = 1 ∧ Vᴴ * V = 1 ∧
+    Sg = diagonal (fun i : Fin o.pos.length => ((Real.sqrt (mu (o.pos.getD i.val 0)) : ℝ) : 𝕜)) ∧
+    (∀ t, t < o.pos.length → 0 < Real.sqrt (mu (o.pos.getD t 0))) ∧
+    U * Sg * Vᴴ = (U * Uᴴ) * Am ∧
+    Uᴴ * (Am - U * Sg * Vᴴ) = 0 ∧ (Am - U * Sg * Vᴴ) * V = 0 ∧
+    (w = .LM → ∀ p ∈ o.pos, ∀ q, q < o.j → q ∉ o.pos → Real.sqrt (mu q) ≤ Real.sqrt (mu p)) ∧
+    (w = .SM → ∀ p ∈ o.pos, ∀ q, q < o.j → q ∉ o.pos → Real.sqrt (mu p) ≤ Real.sqrt (mu q)) := by
+  intro Am U Sg V
+  obtain ⟨hform, hlen, hsel, hL, hS⟩ :=
+    svdKrylov_select_sorted P eigs forceTall A k w o h A.rows mu eigs_sorted_contract hk1 hkj
+  have hmem : ∀ p ∈ o.pos, p < o.j := by
+    intro p hm
+    rcases hform with ⟨_, hp⟩ | ⟨_, hp⟩
+    · rw [hp, List.mem_range'_1] at hm; omega
+    · rw [hp, List.mem_range] at hm; omega
+  have hlt : ∀ t, t < o.pos.length → o.pos.getD t 0 < o.j :=
+    fun t ht => hmem _ (MatF.getD_mem_of_lt' o.pos t ht)
+  obtain ⟨_, k2, k3, k4, k5, k6, k7, k8, _⟩ :=
+    C16_svd_krylov_wide P eigs forceTall A k w o h hwide A_good A_real W_shape.good
+      (fun t => mu (o.pos.getD t 0)) hsel (fun t ht => sqrt_contract _ (hlt t ht)) inv_contract
+  exact ⟨hlen, hform, k2, k3, k4, k5, k6, k7, k8,
+    fun hw p hp q hq hnq => (hL hw p hp q hq hnq).2, fun hw p hp q hq hnq => (hS hw p hp q hq hnq).2⟩
+
+/-! ## witnesses of the contracts (non-vacuity, exact rational data) -/
+
+/-- **`lapack_contract` has an instance, and `C16_svd_dense` applies through it.**  `Witness.A3` is the `3 × 2`
+non-diagonal `[[-12, 9], [12, 16], [0, 0]]`; `Witness.PL.lapackSvd` is the exact table `U = [e₁ e₀ e₂]`,
+`s = (20, 15)` (DESCENDING), `V = [[3/5, -4/5], [4/5, 3/5]]`.  The strengthened contract `LapackSorted` holds for
+it, hence `lapack_contract`; DenseSVD returns 2 triplets with `Uᴴ U = 1`, `Vᴴ V = 1`, `U Σ Vᴴ = A₃`, values
+ascending along `idx` (`C16_svd_dense_sorted` with its `lt_contract` witnessed too). -/
+theorem C16_svd_dense_witness :
+    LapackSorted Witness.A3.rows Witness.A3.cols Witness.A3.td.f
+      (Witness.PL.lapackSvd Witness.A3.rows Witness.A3.cols Witness.A3.td.f) Witness.s3 ∧
+    (let res := svdDense Witness.PL Witness.A3
+     res.1.length = 2 ∧
+     (MatF.toMatrix 3 2 res.2.U.den.f)ᴴ * MatF.toMatrix 3 2 res.2.U.den.f = 1 ∧
+     (MatF.toMatrix 2 2 res.2.V.den.f)ᴴ * MatF.toMatrix 2 2 res.2.V.den.f = 1 ∧
+     MatF.toMatrix 3 2 res.2.U.den.f * MatF.toMatrix 2 2 res.2.S.den.f *
+       (MatF.toMatrix 2 2 res.2.V.den.f)ᴴ = MatF.toMatrix 3 2 Witness.a3 ∧
+     (∀ i j, i ≤ j → j < res.1.length →
+       Witness.s3 (res.1.getD i 0) ≤ Witness.s3 (res.1.getD j 0))) := by
+  refine ⟨Witness.lapack_sorted', ?_⟩
+  intro res
+  have key := C16_svd_dense Witness.PL Witness.A3
+    ⟨Witness.A3_good.wf, Witness.A3_good.nd, Witness.A3_good.herm⟩ Witness.s3
+    ((C16_contracts_of_sorted (𝕜 := ℝ)).2 Witness.PL Witness.A3 Witness.s3 Witness.lapack_sorted')
+  have hsorted := C16_svd_dense_sorted Witness.PL Witness.A3 Witness.s3
+    (fun i hi => (Witness.lapack_sorted'.real i hi).1) Witness.lt_ok
+  obtain ⟨hk, _, _, _, _, _, hU, hV, _, _, hrec⟩ := key
+  have hk2 : (svdDense Witness.PL Witness.A3).1.length = 2 := by
+    rw [hk, Witness.A3_rows, Witness.A3_cols]; rfl
+  rw [hk2, Witness.A3_rows] at hU
+  rw [hk2, Witness.A3_cols] at hV
+  rw [hk2, Witness.A3_rows, Witness.A3_cols] at hrec
+  refine ⟨hk2, hU, hV, ?_, hsorted⟩
+  rw [hrec]
+  simp only [Witness.A3, den_dense_f]
+
+/-- **`ritz_contract` has a genuine partial-run instance, and `C16_krylov_tall_ritz` applies through it.**
+`B = [[0, 2], [5, 0]]` (`Bᴴ B = diag(25, 4)`), one Lanczos vector `v = (3/5, 4/5)` (`k = 1 < n = 2`), Ritz value
+`vᴴ Bᴴ B v = 289/25`, `σ = 17/5`: the Galerkin condition holds, `vᴴ v = 1`, `v` is NOT an eigenvector
+(`Bᴴ B v ≠ v λ`: the stronger `eigs_contract` fails), and the back-substituted `U = B v σ⁻¹` has `Uᴴ U = 1`,
+`U Σ Vᴴ = B v vᴴ`, `(B − U Σ Vᴴ) v = 0`. -/
+theorem C16_krylov_ritz_witness :
+    let Bm := MatF.toMatrix 2 2 Witness.b
+    let V := MatF.toMatrix 2 1 Witness.v
+    let U := MatF.toMatrix 2 1 (backsubU 2 1 Witness.b Witness.v Witness.ritzSinv)
+    let Sg : Matrix (Fin 1) (Fin 1) ℝ := diagonal (fun i : Fin 1 => Witness.ritzSigma i.val)
+    Vᴴ * (Bmᴴ * Bm) * V = diagonal (fun i : Fin 1 => Witness.ritzLam i.val) ∧
+    Vᴴ * V = 1 ∧
+    Bmᴴ * Bm * V ≠ V * diagonal (fun i : Fin 1 => Witness.ritzLam i.val) ∧
+    Witness.ritzSigma 0 = 17 / 5 ∧
+    Uᴴ * U = 1 ∧ U * Sg * Vᴴ = Bm * (V * Vᴴ) ∧ (Bm - U * Sg * Vᴴ) * V = 0 := by
+  intro Bm V U Sg
+  obtain ⟨hritz, hsq, hinv, hVV, hne⟩ := Witness.ritz_ok
+  obtain ⟨_, hU, hrec, hres⟩ :=
+    C16_krylov_tall_ritz 2 2 1 Witness.b Witness.v Witness.ritzLam Witness.ritzSigma Witness.ritzSinv
+      hritz hsq hinv
+  exact ⟨hritz.1, hVV, hne, rfl, hU, hrec, hres hVV⟩
+
+/-- **`lstsq_contract` has an instance, and `C16_pinv_lstsq` applies through it.**  `Witness.lstsq3` is a concrete
+`lstsq` function: multiplication of the right-hand side by the exact pseudo-inverse
+`A₃⁺ = [[-4/75, 3/100, 0], [1/25, 1/25, 0]]` of the `3 × 2` non-diagonal `A₃`.  For EVERY right-hand side `B`
+and every column: the contract holds, so `pinv(A₃, LSTSQ) @ B` is the LSTSQ rule, each column is the
+minimum-norm least-squares solution and equals `A₃⁺ b`. -/
+theorem C16_pinv_lstsq_witness (nb : Nat) (B : MatF ℝ) :
+    IsMoorePenrose (MatF.toMatrix 3 2 Witness.a3) (MatF.toMatrix 2 3 Witness.x3) ∧
+    pinv Witness.PL Witness.A3 .lstsq = .lstsq Witness.A3 ∧
+    ∀ j, j < nb →
+      IsMinNormLsq (lin (MatF.toMatrix Witness.A3.rows Witness.A3.cols Witness.A3.den.f))
+        (colE Witness.A3.rows B j) (colE Witness.A3.cols (lstsqApply Witness.lstsq3 Witness.A3 nb B) j) ∧
+      colE 2 (lstsqApply Witness.lstsq3 Witness.A3 nb B) j =
+        lin (MatF.toMatrix 2 3 Witness.x3) (colE 3 B j) := by
+  obtain ⟨hrule, hcols⟩ := C16_pinv_lstsq Witness.PL Witness.lstsq3 Witness.A3
+    ⟨Witness.A3_good.wf, Witness.A3_good.nd, Witness.A3_good.herm⟩ nb B (Witness.lstsq3_ok nb B)
+  refine ⟨Witness.x3_mp, hrule ?_, fun j hj => ⟨(hcols j hj).1, ?_⟩⟩
+  · simp [pinvRule, Witness.A3, Op.core]
+  · simp only [lstsqApply, Witness.lstsq3, Witness.A3_rows]
+    exact colE_mmul 2 3 Witness.x3 B j
+
+/-- **the strengthened eigensolver contract has an instance with `k = 1 < n = 2` and the REAL operator shape.**
+`Witness.A = [[0, 2], [1, 0]]`; `Witness.eigsQY` returns the ASCENDING eigenvalues `1, 4` of `Aᴴ A` and the
+eigenvector operator `Product(Orthonormal(Dense Q), Dense Y)` (`Q = Y = [[0, 1], [1, 0]]`).  `EigShape` and
+`EigsSorted` hold; `svd(A, 1, 'LM', Lanczos)` selects position `1` — the LARGEST eigenvalue — and returns `Σ = [2]`,
+orthonormal `U`, `V`, `U Σ Vᴴ = A V Vᴴ`; the unselected singular value is not larger. -/
+theorem C16_svd_krylov_sorted_witness :
+    (∀ G, EigShape (Witness.eigsQY G).W) ∧
+    ∃ o, svdKrylov Witness.P Witness.eigsQY false Witness.A ((1 : Nat) : Int) .LM = .ok o ∧
+      o.tall = true ∧ o.j = 2 ∧ o.pos = [1] ∧
+      EigsSorted 2 2 o.G.den.f (Witness.eigsQY o.G).W.den.f (Witness.eigsQY o.G).vals Witness.lam ∧
+      MatF.toMatrix 1 1 o.triple.S.den.f = diagonal (fun _ : Fin 1 => (2 : ℝ)) ∧
+      (MatF.toMatrix 2 1 o.triple.U.den.f)ᴴ * MatF.toMatrix 2 1 o.triple.U.den.f = 1 ∧
+      (MatF.toMatrix 2 1 o.triple.V.den.f)ᴴ * MatF.toMatrix 2 1 o.triple.V.den.f = 1 ∧
+      MatF.toMatrix 2 1 o.triple.U.den.f * MatF.toMatrix 1 1 o.triple.S.den.f *
+          (MatF.toMatrix 2 1 o.triple.V.den.f)ᴴ =
+        MatF.toMatrix 2 2 Witness.A.den.f *
+          (MatF.toMatrix 2 1 o.triple.V.den.f * (MatF.toMatrix 2 1 o.triple.V.den.f)ᴴ) ∧
+      (∀ p ∈ o.pos, ∀ q, q < o.j → q ∉ o.pos →
+        Real.sqrt (Witness.lam q) ≤ Real.sqrt (Witness.lam p)) :=
+  ⟨fun G => Or.inl ⟨_, _, _, _, _, _, _, rfl⟩, Witness.largest_sound⟩
+
 #print axioms C16_select_largest
 #print axioms C16_select_smallest
 #print axioms C16_select_zero_quirk
@@ -776,3 +1124,16 @@ theorem C16_lobpcg_k_clause_needed (n k : Nat) (hn : 1 ≤ n) (hk : n ≤ k) :
 #print axioms C16_lobpcg_largest_flag
 #print axioms C16_lobpcg_sm_regression
 #print axioms C16_lobpcg_k_clause_needed
+#print axioms C16_lanczos_W_good
+#print axioms C16_svd_krylov_tall_QY
+#print axioms C16_svd_krylov_wide_QY
+#print axioms C16_svd_krylov_link_QY
+#print axioms C16_svd_krylov_total_QY
+#print axioms C16_contracts_of_sorted
+#print axioms C16_svd_krylov_select_sorted
+#print axioms C16_svd_krylov_tall_sorted
+#print axioms C16_svd_krylov_wide_sorted
+#print axioms C16_svd_dense_witness
+#print axioms C16_krylov_ritz_witness
+#print axioms C16_pinv_lstsq_witness
+#print axioms C16_svd_krylov_sorted_witness
